@@ -43,6 +43,10 @@ func SPP(pointer uint16) Message {
 
 // SongSelect returns a song select message
 func SongSelect(song uint8) Message {
+	// a data byte must not exceed 127
+	if song > 127 {
+		song = 127
+	}
 	// TODO check - it is a guess
 	//return NewMessage([]byte{byteSysSongSelect, song})
 	return []byte{byteSysSongSelect, song}
@@ -73,6 +77,10 @@ cdefg = Hours (0-23)
 
 // MTC returns a timing code message (quarter frame)
 func MTC(m uint8) Message {
+	// a data byte must not exceed 127
+	if m > 127 {
+		m = 127
+	}
 	// TODO check - it is a guess
 	// TODO provide a better abstraction for MTC
 	//return NewMessage([]byte{byteMIDITimingCodeMessage, byte(m)})
